@@ -93,6 +93,22 @@ def run(ctx, broken):
             for _ in range(40 if ctx.tier == "quick" else 1000):
                 b = bytearray(bytes.fromhex(hx_)); i = rng.below(len(b) * 8); b[i // 8] ^= 1 << (i % 8)
                 cs.append({"line": "proofdec " + b.hex(), "tags": ["proof-canonicity-bitflip"], "canon": b.hex()})
+            # canonicity, systematically: every NON-CANONICAL spelling in every slot (scalars r + k for small and large k,
+            # 2^256 - 1, 2^255; points with x >= p, flag combinations, non-canonical infinity): accepted => re-encodes to itself
+            from props.c17 import g1_bad_points
+            pb_ = bytes.fromhex(hx_)
+            for slot in range(15):
+                off = 528 + 32 * slot
+                for kk in (0, 1, 5, 1 << 16, (1 << 32) - 2, (1 << 32) - 1, 1 << 40, 1 << 64, (1 << 256) - 1 - R, (1 << 255) - R):
+                    v = R + kk
+                    if v >= (1 << 256):
+                        continue
+                    m_ = bytearray(pb_); m_[off:off + 32] = v.to_bytes(32, "little")
+                    cs.append({"line": "proofdec " + bytes(m_).hex(), "tags": ["proof-canonicity-scalar-slot"], "canon": bytes(m_).hex()})
+            for slot in range(11):
+                for tag_, enc_ in g1_bad_points():
+                    m_ = bytearray(pb_); m_[48 * slot:48 * slot + 48] = enc_
+                    cs.append({"line": "proofdec " + bytes(m_).hex(), "tags": ["proof-canonicity-point-slot"], "canon": bytes(m_).hex()})
         elif kind == "pp":
             cs.append({"line": "ppdec " + hx_, "tags": ["roundtrip-public-parameters"], "expect_prefix": "ok h=" + hbytes(hx_)})
         elif kind == "ppraw":
@@ -125,5 +141,5 @@ def run(ctx, broken):
     st["rule"] = ("%d circuits (incl. one whose q_m interpolant loses its top coefficient while all other key polynomials keep full "
                   "length): prover / verifier / proof / public-parameter / raw-commit-key bytes -> decode -> re-encode must be "
                   "identical (impl and Lean model decoders); decoded prover proves byte-identically from the same RNG stream and "
-                  "the decoded verifier accepts (route flags); proof canonicity on single-bit mutants of valid proofs." % (len(progs) + 1))
+                  "the decoded verifier accepts (route flags); proof canonicity on single-bit mutants of valid proofs and on every non-canonical spelling (scalars r + k, points with x >= p / flag combinations) in every slot." % (len(progs) + 1))
     return st
